@@ -49,7 +49,7 @@ type StubHH struct {
 }
 
 func (h *StubHH) WriteShard(shardID, ownerID uint64, points interface{}) error { return nil }
-func (h *StubHH) RemoveNode(ownerID uint64) error                             { return nil }
+func (h *StubHH) RemoveNode(ownerID uint64) error                              { return nil }
 
 type Options struct {
 	Index string // "inmem" (default) or "tsi1"
@@ -101,10 +101,10 @@ func New(dir string, ln net.Listener, opt Options) (*Node, error) {
 	n.PointsWriter.MetaClient = n.Meta
 	n.PointsWriter.WriteTimeout = 5 * time.Second
 	n.Executor.StatementExecutor = &coordinator.StatementExecutor{
-		MetaClient:  n.Meta,
-		TaskManager: &coordinator.ClusterTaskManager{TaskManager: n.Executor.TaskManager, MetaExecutor: n.MetaExecutor},
-		TSDBStore:   clusterStore,
-		ShardMapper: &coordinator.ClusterShardMapper{MetaClient: n.Meta, TSDBStore: n.Store, MetaExecutor: n.MetaExecutor},
+		MetaClient:   n.Meta,
+		TaskManager:  &coordinator.ClusterTaskManager{TaskManager: n.Executor.TaskManager, MetaExecutor: n.MetaExecutor},
+		TSDBStore:    clusterStore,
+		ShardMapper:  &coordinator.ClusterShardMapper{MetaClient: n.Meta, TSDBStore: n.Store, MetaExecutor: n.MetaExecutor},
 		PointsWriter: n.PointsWriter,
 	}
 
